@@ -473,11 +473,47 @@ func init() {
 				rg.compareWithModel(lgOf().Unrank(0, i), []string{"x", "y"}, r, true)
 			},
 		}
+		// loops written as self (and mutual) tail calls whose iterations let their scope escape: a closure
+		// made in one iteration and called after the loop, a def in the body of one iteration looked for in
+		// the next one; every iteration has a scope of its own
+		loopEscapes := []string{
+			"(list (fn [] x) k)", "(list (fn [] (list x (count k))) k)", "(cons (fn [] x) k)", "(list (let [x2 x] (fn [] (+ x2 x))) k)",
+		}
+		loopTails := []string{"%s", "(do 1 %s)", "(let [z 1] %s)", "(if true %s 0)", "((fn [] %s))"}
+		loopShapes := []string{
+			// self tail call, result is the chain of closures, called afterwards (newest first)
+			"(do (def f (fn [x k] (if (< x 3) TAIL k))) (def run (fn [k] (if (first k) (do (t! ((first k))) (run (first (rest k)))) nil))) (run (f 0 (list))))",
+			// the same with a def in the body: the next iteration must not see it
+			"(do (def f (fn [x k] (t! (try y (catch e (quote none)))) (def y x) (if (< x 3) TAIL k))) (def run (fn [k] (if (first k) (do (t! ((first k))) (run (first (rest k)))) nil))) (run (f 0 (list))))",
+			// mutual tail calls
+			"(do (def g (fn [x k] (f x k))) (def f (fn [x k] (if (< x 3) TAILG k))) (def run (fn [k] (if (first k) (do (t! ((first k))) (run (first (rest k)))) nil))) (run (f 0 (list))))",
+			// the loop called from inside another call of itself (argument position), then as a tail call
+			"(do (def f (fn [x k] (if (< x 2) TAIL k))) (def run (fn [k] (if (first k) (do (t! ((first k))) (run (first (rest k)))) nil))) (run (f 0 (f 1 (list)))))",
+		}
+		loopProg := func(i int64) string {
+			e := loopEscapes[i%int64(len(loopEscapes))]
+			i /= int64(len(loopEscapes))
+			tl := loopTails[i%int64(len(loopTails))]
+			i /= int64(len(loopTails))
+			sh := loopShapes[i]
+			sh = strings.ReplaceAll(sh, "TAILG", fmt.Sprintf(tl, "(g (+ x 1) "+e+")"))
+			return strings.ReplaceAll(sh, "TAIL", fmt.Sprintf(tl, "(f (+ x 1) "+e+")"))
+		}
+		loops := &vf.Family{
+			Name:     "loops-whose-scopes-escape",
+			Bounds:   fmt.Sprintf("%d loop shapes (self tail call, with a def in the body, mutual tail calls, a loop nested in its own argument) x %d positions of the tail call (bare, in do, in let, in if, in a called thunk) x %d ways an iteration's scope escapes (closures over the parameters, made in let); the closures are called after the loop", len(loopShapes), len(loopTails), len(loopEscapes)),
+			Setup:    func(t string) { tier = t; setup(t) },
+			N:        func(t string) int64 { return int64(len(loopShapes) * len(loopTails) * len(loopEscapes)) },
+			Describe: loopProg,
+			Run: func(i int64, r *vf.Rec) {
+				rg.compareWithModel(model.FromImpl(lx.MustRead(loopProg(i))), []string{"x", "y"}, r, true)
+			},
+		}
 		return &vf.Check{
 			ID: "C01", Level: "model_checking",
 			Rule:        "every program of the bounded grammar is evaluated by the real EVAL and by an independent definitional interpreter; result (or error kind and thrown value), ordered effect trace and final bindings of x, y, f must agree; non-trivial = the program has effects or binds a global",
 			Assumptions: []string{"the definitional interpreter (harness/internal/model/interp.go) transcribes the mal definition as amended by the README", "error messages are not compared, only value-vs-error, thrown payload, trace and bindings", "programs that run out of fuel on either side are skipped and counted"},
-			Families:    []*vf.Family{core, rec, scoping, literals},
+			Families:    []*vf.Family{core, rec, scoping, literals, loops},
 		}
 	})
 }
